@@ -308,7 +308,19 @@ def sweeps(tier, rng):
         for i in range(n):
             tol = rng.choice([0.5, 1.0, 2.0, 5.0, 20.0, 50.0]); aq = rng.chance(40); which = rng.below(2)
             calls = []; segs = []          # segs: (kind, start point, args)
-            for _c in range(rng.randint(1, 3)):
+            directed = i % 8 == 0
+            if directed:
+                # a cubic that has to stay cubic (S-shaped), IMMEDIATELY followed by a gentle one: a pen that loses track of the current
+                # point would fit the second one from the start of the first
+                aq = False; tol = rng.choice([1.0, 2.0])
+                ox, oy = float(rng.randint(-200, 200)), float(rng.randint(-200, 200)); sx = rng.choice([1.0, -1.0, 0.5, 2.0]); sy = rng.choice([1.0, -1.0, 0.5])
+                T_ = lambda x_, y_: (ox + sx * x_, oy + sy * y_)
+                h = rng.choice([200, 300, 400])
+                cur = T_(0, 0); calls.append(("moveTo", (cur,)))
+                for a in ((T_(100, h), T_(200, -h), T_(300, 0)), (T_(300, 200), T_(500, 200), T_(600, 0))):
+                    calls.append(("curveTo", a)); segs.append(("curveTo", cur, a)); cur = a[-1]
+                calls.append(("closePath", ()) if rng.chance(60) else ("endPath", ()))
+            for _c in range(0 if directed else rng.randint(1, 3)):
                 cur = (float(rng.randint(-300, 300)), float(rng.randint(-300, 300))); calls.append(("moveTo", (cur,)))
                 for _s in range(rng.randint(1, 6)):
                     k = rng.below(10)
